@@ -107,26 +107,26 @@ Section Mono.
     intros [N B]. apply good_bind; auto. intros a E. apply good_ok. intros _. apply B. exact E.
   Qed.
 
-  Lemma check_ok_nt b tag : b = true -> nt (check (Strict fl) b tag).
+  Lemma check_ok_nt b tag : b = true -> nt (check (Strict true fl) b tag).
   Proof. intros ->. apply nt_ok. Qed.
-  Lemma check_nt_other b tag : tag <> E_TIMERESET -> nt (check (Strict fl) b tag).
+  Lemma check_nt_other b tag : tag <> E_TIMERESET -> nt (check (Strict true fl) b tag).
   Proof. intros NE. unfold check. destruct b. apply nt_ok. intros E. inversion E. contradiction. Qed.
 
   Definition Q_block (f : nat) : Prop :=
     forall t b st cur, s_time st <= t -> mono_block L b t = true -> wf_stmts L cur b = true ->
-      good (run_block L f (Strict fl) t b st) (block_after L b t).
+      good (run_block L f (Strict true fl) t b st) (block_after L b t).
   Definition Q_stmt (f : nat) : Prop :=
     forall t s st cur, s_time st = stmt_time L s t -> mono_stmt L s t = true -> wf_stmt L cur s = true ->
-      good (run_stmt L f (Strict fl) t s st) (stmt_after L s t).
+      good (run_stmt L f (Strict true fl) t s st) (stmt_after L s t).
   Definition Q_chain (f : nat) : Prop :=
     forall t first k c b rc st cur, s_time st <= t -> (first = true -> s_time st = t) ->
       mono_block L b t = true -> mono_chain L rc (block_after L b t) = true ->
       bookended L b = true -> wf_stmts L cur b = true -> wf_chain L cur rc = true ->
-      good (run_chain L f (Strict fl) t first k c b rc st) (chain_after L rc (block_after L b t)).
+      good (run_chain L f (Strict true fl) t first k c b rc st) (chain_after L rc (block_after L b t)).
   Definition Q_iter (f : nat) : Prop :=
     forall t b lk st cur, s_time st <= t -> mono_block L b t = true ->
       bookended L b = true -> wf_stmts L cur b = true ->
-      good_st (run_iter L f (Strict fl) t b t (block_after L b t) lk st) (block_after L b t).
+      good_st (run_iter L f (Strict true fl) t b t (block_after L b t) lk st) (block_after L b t).
 
   Lemma mono_block_cons s b t : mono_block L (BCons s b) t = mono_stmt L s t && mono_block L b (stmt_after L s t).
   Proof. reflexivity. Qed.
@@ -187,7 +187,7 @@ Section Mono.
     pose proof (proj1 (proj2 (mono_grow)) _ _ MB) as GB.
     destruct (Bool.eqb bv (is_if k)).
     - rewrite (start_time_nop _ _ _ FN). cbn [expect_time obind].
-      assert (FS : (if first then fall L (Strict fl) t (s_time st1) st1 else Ok (set_time L t st1)) = Ok (set_time L t st1)).
+      assert (FS : (if first then fall L (Strict true fl) t (s_time st1) st1 else Ok (set_time L t st1)) = Ok (set_time L t st1)).
       { destruct first; auto. unfold fall. rewrite ET, (FE eq_refl), Z.eqb_refl. reflexivity. }
       rewrite FS. cbn [obind].
       destruct (QB t b (set_time L t st1) cur ltac:(cbn; lia) MB WF) as [N1 B1].
@@ -198,7 +198,7 @@ Section Mono.
       assert (TG : block_after L b t <= s_time st2) by (eapply run_block_time_ge; eauto).
       set (te := chain_after L rc (block_after L b t)).
       assert (FS2 : match rc with
-                   | CEnd => fall L (Strict fl) te (s_time st2) st2
+                   | CEnd => fall L (Strict true fl) te (s_time st2) st2
                    | _ => Ok (set_time L te st2)
                    end = Ok (set_time L te st2)).
       { destruct rc; auto. unfold fall, te. change (chain_after L CEnd (block_after L b t)) with (block_after L b t).
@@ -288,7 +288,7 @@ Section Mono.
   (* with non-decreasing time labels and a start at time <= 0, AstVm never resets the time *)
   Theorem monotone_no_time_reset p st fuel :
     wf_prog L p = true -> mono_block L p 0 = true -> s_time st <= 0 ->
-    run_struct L fuel (Strict fl) p st <> Err E_TIMERESET.
+    run_struct L fuel (Strict true fl) p st <> Err E_TIMERESET.
   Proof.
     intros WF MO LE. unfold wf_prog, wf_block in WF.
     apply andb_prop in WF. destruct WF as [WF _]. apply andb_prop in WF. destruct WF as [_ WF].
